@@ -362,7 +362,7 @@ func (h *DropSeries) Process() (codec.BinaryCodec, error) {
 			index := shard.GetIndexBuilder().GetPrimaryIndex()
 			idsResult, e := index.SearchSeriesByTableAndCond(mstName, expr, t)
 			if e != nil {
-				return h.rsp, err
+				return h.rsp, e
 			}
 
 			err = storeTsids(idsResult, dbptInfo, metaClient, shard)
